@@ -431,6 +431,64 @@ func runC10(c *core.Ctx) {
 
 	// (3) real binary
 	c10L1(c)
+	if !c.Quick() {
+		c10Gigabyte(c)
+	}
+}
+
+// c10Gigabyte (thorough tier): a log of more than 1 GiB streamed through a pipe; the last day carries a
+// sentinel food that must be in the report.
+func c10Gigabyte(c *core.Ctx) {
+	day := "2021/01/24:\n  " + strings.Repeat("f", 230) + ": 1\n  water: 2\n\n" // 256 bytes
+	if len(day) != 256 {
+		day += strings.Repeat("\n", 256-len(day)%256)
+	}
+	days := (1<<30)/len(day) + 4
+	for _, args := range [][]string{{"-l", "/dev/stdin", "report", "quantity"}, {"-d", "/dev/null", "-l", "/dev/stdin", "reg", "-s", "sentinel"}} {
+		cmd := exec.Command(c.HR, args...)
+		cmd.Env = run.BaseEnv()
+		cmd.Dir = c.Work
+		in, err := cmd.StdinPipe()
+		if err != nil {
+			c.Inconclusive("gigabyte-input", err.Error())
+			return
+		}
+		var out, serr strings.Builder
+		cmd.Stdout, cmd.Stderr = &out, &serr
+		if err := cmd.Start(); err != nil {
+			c.Inconclusive("gigabyte-input", err.Error())
+			return
+		}
+		go func() {
+			chunk := strings.Repeat(day, 4096) // 1 MiB
+			for k := 0; k < days/4096; k++ {
+				if _, err := io.WriteString(in, chunk); err != nil {
+					break
+				}
+			}
+			io.WriteString(in, strings.Repeat(day, days%4096))
+			io.WriteString(in, "2021/01/25:\n  sentinel: 7\n")
+			in.Close()
+		}()
+		done := make(chan error, 1)
+		go func() { done <- cmd.Wait() }()
+		var werr error
+		select {
+		case werr = <-done:
+		case <-time.After(15 * time.Minute):
+			cmd.Process.Kill()
+			<-done
+			c.Inconclusive("gigabyte-input", "watchdog")
+			continue
+		}
+		c.Eval(1)
+		c.Count("gigabyte_input_runs", 1)
+		c.Nontrivial("gigabyte", joinArgs(args))
+		if werr == nil && !strings.Contains(out.String(), "sentinel") {
+			c.Violation(strings.Join(args[len(args)-2:], " ")+"|success-on-a-prefix", fmt.Sprintf("%s on a log of %d MiB from a pipe exits 0 without the last day's food", joinArgs(args), days*len(day)>>20),
+				caseDoc{Args: args, Note: fmt.Sprintf("%d days of 256 bytes followed by a day with 'sentinel: 7', streamed to stdin", days), Observed: map[string]any{"stdout_tail": clip(out.String()[max(0, out.Len()-300):], 300), "stderr": clip(serr.String(), 300)}})
+		}
+	}
 }
 
 func c10CountHeadings(text string) int {
